@@ -171,9 +171,12 @@ def gen_orch(rng, tier, open_keys):
             if when[i] == "late":
                 sc.append(["add", i])
         sc.append(["settle"])
-    # shutdown: open what is still gated, end the independent contexts
+    # shutdown: open what is still gated, end the independent contexts (after a Close the parent context is still
+    # live: services started from outside on it go on until it is cancelled too)
     rest = [i for i in range(n) if i not in released]
     rng.shuffle(rest)
+    if any(st == ["close"] or (st[0] == "par" and ["close"] in st[2]) for st in sc):
+        sc.append(["cancel"])
     for i in rest:
         p, c = pre[i]
         if p == "running" and c == "s" and units[i][0] in BLOCKS:
